@@ -8,6 +8,8 @@ on pyrevm against the Coq evaluators and the Coq spec (compared inside Coq); (2)
 contracts (one operation per external function) through the full compiler under several configurations vs the
 Coq spec."""
 import decimal
+import os
+import sys
 import threading
 import time
 from pathlib import Path
@@ -1062,6 +1064,93 @@ def empty_bytes_signed_probe(ctx):
 
 
 # ------------------------------------------------------------------ main
+
+class PhaseCtx:
+    """what a differential phase may use of the Ctx; violations and counters are recorded and replayed by run_phases"""
+
+    def __init__(self, ctx):
+        self._ctx = ctx
+        self.tier = ctx.tier
+        self.corr, self.extra, self.samples, self.calls = {}, {}, [], []
+
+    def rng(self, salt=""):
+        return self._ctx.rng(salt)
+
+    def log(self, *a):
+        self._ctx.log(*a)
+
+    def is_known(self, key):
+        return self._ctx.is_known(key)
+
+    def violation(self, kind, name, detail, key=None):
+        self.calls.append((kind, name, detail, key))
+
+
+def run_phases(ctx, phases, order, workers=3):
+    """Run the phases (name, fn(PhaseCtx) -> (found, evaluations)) in forked children, at most `workers` at a time (the
+    compiler keeps global state, so threads are not an option); C03_SERIAL=1 runs them in this process instead."""
+    import pickle
+    import tempfile
+    import traceback
+    fns = dict(phases)
+    res = {}
+    if os.environ.get("C03_SERIAL") == "1" or not hasattr(os, "fork"):
+        for name, fn in phases:
+            p = PhaseCtx(ctx)
+            res[name] = ("ok", p.calls, p.corr, p.extra, p.samples, fn(p))
+    else:
+        tmpd = tempfile.mkdtemp(prefix="c03ph")
+        pending, running = [n for n in order if n in fns] + [n for n, _ in phases if n not in order], {}
+        try:
+            while pending or running:
+                while pending and len(running) < workers:
+                    name = pending.pop(0)
+                    out = os.path.join(tmpd, name)
+                    sys.stdout.flush()
+                    sys.stderr.flush()
+                    pid = os.fork()
+                    if pid == 0:
+                        try:
+                            try:
+                                p = PhaseCtx(ctx)
+                                ret = fns[name](p)
+                                payload = ("ok", p.calls, p.corr, p.extra, p.samples, ret)
+                            except BaseException:  # noqa
+                                payload = ("err", traceback.format_exc())
+                            with open(out, "wb") as f:
+                                pickle.dump(payload, f)
+                            sys.stdout.flush()
+                            sys.stderr.flush()
+                        finally:
+                            os._exit(0)
+                    running[pid] = (name, out)
+                for pid in list(running):
+                    done, _ = os.waitpid(pid, os.WNOHANG)
+                    if done:
+                        name, out = running.pop(pid)
+                        try:
+                            with open(out, "rb") as f:
+                                res[name] = pickle.load(f)
+                        except Exception as e:  # noqa
+                            res[name] = ("err", f"phase {name} died without a result: {e}")
+                time.sleep(0.05)
+        finally:
+            import shutil
+            shutil.rmtree(tmpd, ignore_errors=True)
+    rets = []
+    for name, _ in phases:
+        r = res[name]
+        if r[0] != "ok":
+            raise RuntimeError(f"C03 phase {name} failed:\n{r[1]}")
+        _, calls, corr, extra, samples, ret = r
+        for kind, nm, detail, key in calls:
+            ctx.violation(kind, nm, detail, key=key)
+        ctx.corr.update(corr)
+        ctx.extra.update(extra)
+        ctx.samples.extend(samples)
+        rets.append(ret)
+    return rets
+
 def choose_types(ctx, all_tys):
     if ctx.tier == "thorough":
         return all_tys
@@ -1248,269 +1337,305 @@ def run(ctx):
     bfam, bbconv = g["bfam"], g["bbconv"]
 
     # ---- correspondence / search
-    found = False
-    total = 0
+    # ---- correspondence / search
     all_tys = [(k, s, d) for k, s, d, _ in X.num_types()]
     tys = choose_types(ctx, all_tys)
-    for kind, templ, b in (("legacy", ltempl, bl), ("venom", vtempl, bv)):
-        if not templ or not b0["ok"]:
-            continue
-        # quick tier: a seeded subset of types / literal shapes, unless a proof or tie is broken
-        # (then Search over the whole family)
-        if b["ok"]:
-            only = set(tys[:5] + tys[-1:]) if ctx.tier == "quick" else None
-            frac = 0.15 if ctx.tier == "quick" else 0.5
-            force = ()
-        else:
-            # Search: the templates that differ from the proved model (all of them if Coq cannot tell), plus the
-            # usual sample
-            bad = mismatching_templates(kind)
-            if bad is None:
-                only, frac, force = None, (0.3 if ctx.tier == "quick" else None), ()
+    def ph_templates(ctx):
+        found, total = False, 0
+        for kind, templ, b in (("legacy", ltempl, bl), ("venom", vtempl, bv)):
+            if not templ or not b0["ok"]:
+                continue
+            # quick tier: a seeded subset of types / literal shapes, unless a proof or tie is broken
+            # (then Search over the whole family)
+            if b["ok"]:
+                only = set(tys[:5] + tys[-1:]) if ctx.tier == "quick" else None
+                frac = 0.15 if ctx.tier == "quick" else 0.5
+                force = ()
             else:
-                step = max(1, len(bad) // 300)
-                force = bad[::step]
-                only = set(tys[:6] + tys[-2:]) if ctx.tier == "quick" else None
-                frac = 0.2 if ctx.tier == "quick" else 0.5
-            ctx.log(f"search {kind}: {None if bad is None else len(bad)} templates differ from the model")
-        n, failing, bad_model = template_differential(ctx, templ, kind, only, frac, force)
-        total += n
-        for op, ty, shape, c, e, g, node in failing[:5]:
-            found = True
-            tstr = str(node) if kind == "legacy" else "; ".join(str(i).strip() for i in node[0]) + f" -> {node[1]}"
-            ctx.violation(
-                "failing-input", f"{kind} {OPSYM[op]} template for {tyname(ty)} ({shape}) is not exact-or-revert",
-                {"generator": f"{'vyper.codegen.arithmetic / expr.py' if kind == 'legacy' else 'vyper.codegen_venom.arithmetic'}"
-                              f", op {op}, type {tyname(ty)}, operand shape {shape} (VV: variables x, y; LV: x literal; VL: y literal)",
-                 "template": tstr, "x": str(c[0]), "y": str(c[1]),
-                 "expected": "revert" if e == -1 else hex(e),
-                 "observed_on_evm": "revert" if g == -1 else (hex(g) if g is not None else "?"),
-                 "how": "template compiled by the real back end (compile_ir / venom -O none) + assembler, executed on pyrevm"},
-                key=f"{kind}-template:{op}:{tyname(ty)}:{shape}")
-        for op, ty, shape, c, l, g in bad_model[:5]:
-            if not found:
-                ctx.violation("correspondence-broken", f"Coq evaluator disagrees with the real back end + EVM on an exported {kind} template",
-                              {"op": op, "type": tyname(ty), "shape": shape, "x": str(c[0]), "y": str(c[1]), "coq": str(l), "evm": str(g)})
-    ctx.log(f"template differential done {time.time()-t0:.0f}s")
+                # Search: the templates that differ from the proved model (all of them if Coq cannot tell), plus the
+                # usual sample
+                bad = mismatching_templates(kind)
+                if bad is None:
+                    only, frac, force = None, (0.3 if ctx.tier == "quick" else None), ()
+                else:
+                    step = max(1, len(bad) // 300)
+                    force = bad[::step]
+                    only = set(tys[:6] + tys[-2:]) if ctx.tier == "quick" else None
+                    frac = 0.2 if ctx.tier == "quick" else 0.5
+                ctx.log(f"search {kind}: {None if bad is None else len(bad)} templates differ from the model")
+            n, failing, bad_model = template_differential(ctx, templ, kind, only, frac, force)
+            total += n
+            for op, ty, shape, c, e, g, node in failing[:5]:
+                found = True
+                tstr = str(node) if kind == "legacy" else "; ".join(str(i).strip() for i in node[0]) + f" -> {node[1]}"
+                ctx.violation(
+                    "failing-input", f"{kind} {OPSYM[op]} template for {tyname(ty)} ({shape}) is not exact-or-revert",
+                    {"generator": f"{'vyper.codegen.arithmetic / expr.py' if kind == 'legacy' else 'vyper.codegen_venom.arithmetic'}"
+                                  f", op {op}, type {tyname(ty)}, operand shape {shape} (VV: variables x, y; LV: x literal; VL: y literal)",
+                     "template": tstr, "x": str(c[0]), "y": str(c[1]),
+                     "expected": "revert" if e == -1 else hex(e),
+                     "observed_on_evm": "revert" if g == -1 else (hex(g) if g is not None else "?"),
+                     "how": "template compiled by the real back end (compile_ir / venom -O none) + assembler, executed on pyrevm"},
+                    key=f"{kind}-template:{op}:{tyname(ty)}:{shape}")
+            for op, ty, shape, c, l, g in bad_model[:5]:
+                if not found:
+                    ctx.violation("correspondence-broken", f"Coq evaluator disagrees with the real back end + EVM on an exported {kind} template",
+                                  {"op": op, "type": tyname(ty), "shape": shape, "x": str(c[0]), "y": str(c[1]), "coq": str(l), "evm": str(g)})
+        ctx.log(f"template differential done {time.time()-t0:.0f}s")
 
-    # ---- safe_pow templates
-    for kind, templ, b in (("legacy", lpow, bpl), ("venom", vpow, bpv)):
-        if not templ or not b0["ok"]:
-            continue
-        if b["ok"]:
-            frac, force = (0.035 if ctx.tier == "quick" else 0.5), ()
-        else:
-            bad = mismatching_pows(kind)
-            ctx.log(f"search pow {kind}: {None if bad is None else len(bad)} templates differ from the model / have a wrong bound")
-            frac, force = (0.3, ()) if bad is None else (0.06, bad[::max(1, len(bad) // 300)])
-        n, failing, bad_model = pow_differential(ctx, templ, kind, frac, force)
-        total += n
-        for kd, ty, lit, c, e, g, node in failing[:5]:
-            found = True
-            tstr = str(node) if kind == "legacy" else "; ".join(str(i).strip() for i in node[0]) + f" -> {node[1]}"
-            what = f"{lit} ** y" if kd == 0 else f"x ** {lit}"
-            ctx.violation(
-                "failing-input", f"{kind} safe_pow template {what} for {tyname(ty)} is not exact-or-revert",
-                {"generator": ("vyper.codegen.arithmetic.safe_pow" if kind == "legacy" else "vyper.codegen_venom.arithmetic.safe_pow")
-                              + f", type {tyname(ty)}, {'literal base' if kd == 0 else 'literal exponent'} {lit}",
-                 "template": " ".join(tstr.split()), "x": str(c[0]), "y": str(c[1]),
-                 "expected": "revert" if e == -1 else hex(e),
-                 "observed_on_evm": "revert" if g == -1 else (hex(g) if g is not None else "?"),
-                 "how": "template compiled by the real back end + assembler, executed on pyrevm"},
-                key=f"{kind}-pow:{tyname(ty)}:{'b' if kd == 0 else 'e'}{lit}")
-        for kd, ty, lit, c, l, g in bad_model[:5]:
-            if not found:
-                ctx.violation("correspondence-broken", f"Coq evaluator disagrees with the real back end + EVM on an exported {kind} pow template",
-                              {"type": tyname(ty), "literal": str(lit), "x": str(c[0]), "y": str(c[1]), "coq": str(l), "evm": str(g)})
-    ctx.log(f"pow differential done {time.time()-t0:.0f}s")
+        return found, total
 
-    # ---- unchecked operations (must wrap exactly)
-    for kind, templ, b in (("legacy", luns, bul), ("venom", vuns, buv)):
-        if not templ or not b0["ok"]:
-            continue
-        if b["ok"]:
-            frac, force = (0.025 if ctx.tier == "quick" else 0.6), ()
-        else:
-            bad = mismatching_unsafes(kind)
-            ctx.log(f"search unchecked {kind}: {None if bad is None else len(bad)} templates differ from the model")
-            frac, force = (0.5, ()) if bad is None else (0.08, bad[::max(1, len(bad) // 200)])
-        n, failing, bad_model = unsafe_differential(ctx, templ, kind, frac, force)
-        total += n
-        for uop, ty, c, e, g_, node in failing[:5]:
-            found = True
-            tstr = str(node) if kind == "legacy" else "; ".join(str(i).strip() for i in node[0]) + f" -> {node[1]}"
-            ctx.violation(
-                "failing-input", f"{kind} template of {UNSAFE_SRC[uop]} for {tyname(ty)} does not wrap exactly modulo 2**bits",
-                {"generator": f"{kind} front end, {UNSAFE_SRC[uop]} on {tyname(ty)} operands in variables x, y",
-                 "template": " ".join(tstr.split()), "x": str(c[0]), "y": str(c[1]), "expected": hex(e),
-                 "observed_on_evm": "revert" if g_ == -1 else (hex(g_) if g_ is not None else "?"),
-                 "how": "template compiled by the real back end + assembler, executed on pyrevm"},
-                key=f"{kind}-unchecked:{uop}:{tyname(ty)}")
-        for uop, ty, c, l, g_ in bad_model[:5]:
-            if not found:
-                ctx.violation("correspondence-broken", f"Coq evaluator disagrees with the real back end + EVM on an exported {kind} unchecked-op template",
-                              {"op": uop, "type": tyname(ty), "x": str(c[0]), "y": str(c[1]), "coq": str(l), "evm": str(g_)})
-    n, ufail = unsafe_glue(ctx, [(32, True, False), (32, False, False), (1, True, False), (1, False, False)] if ctx.tier == "quick" else tys, quick_glue_configs() if ctx.tier == "quick" else configs("quick"))
-    total += n
-    for f in ufail[:8]:
-        found = True
-        ctx.violation("failing-input", f"{f['operation']} on {f['type']} under {f['config']} is not exact / does not wrap exactly", f,
-                      key=f"unchecked-glue:{f['operation']}:{f['type']}:{f['config']}")
-    ctx.log(f"unchecked-ops differentials done {time.time()-t0:.0f}s")
-
-    # ---- clamps of all word types (three implementations) and the venom unary minus
-    if clampfam and b0["ok"]:
-        n, failing, bad_model = clamp_differential(ctx, clampfam, (0.15 if ctx.tier == "quick" else None) if bclamp["ok"] else None)
-        total += n
-        for name, ki, w, e, g_, node in failing[:5]:
-            found = True
-            tstr = str(node) if name == "legacy" else "; ".join(str(i).strip() for i in node[0]) + f" -> {node[1]}"
-            ctx.violation(
-                "failing-input", f"{name} clamp_basetype for {c_src_name(ki)} does not accept exactly the canonical words",
-                {"generator": {"legacy": "vyper.codegen.core.clamp_basetype", "venom_arith": "vyper.codegen_venom.arithmetic.clamp_basetype",
-                               "venom_abi": "vyper.codegen_venom.abi.abi_decoder.clamp_basetype"}[name] + f" on type {c_src_name(ki)}",
-                 "template": " ".join(tstr.split()), "input_word": hex(w),
-                 "expected": "revert" if e == -1 else hex(e), "observed_on_evm": "revert" if g_ == -1 else hex(g_),
-                 "how": "template compiled by the real back end + assembler, executed on pyrevm"},
-                key=f"clamp:{name}:{c_src_name(ki)}")
-        for name, ki, w, l, g_ in bad_model[:5]:
-            if not found:
-                ctx.violation("correspondence-broken", f"Coq evaluator disagrees with the real back end + EVM on an exported {name} clamp",
-                              {"type": c_src_name(ki), "word": hex(w), "coq": str(l), "evm": str(g_)})
-        n, failing = usub_differential(ctx, clampfam)
-        total += n
-        for ty, x, e, g_, node in failing[:5]:
-            found = True
-            ctx.violation("failing-input", f"venom unary minus template for {tyname(ty)} is not exact-or-revert",
-                          {"generator": f"vyper.codegen_venom.expr.Expr.lower_UnaryOp (USub), type {tyname(ty)}",
-                           "template": "; ".join(str(i).strip() for i in node[0]) + f" -> {node[1]}", "x": str(x),
-                           "expected": "revert" if e == -1 else hex(e), "observed_on_evm": "revert" if g_ == -1 else hex(g_)},
-                          key=f"venom-usub:{tyname(ty)}")
-    ctx.log(f"clamp differentials done {time.time()-t0:.0f}s")
-
-    # ---- bytestring -> word conversion templates (memory operand)
-    if bfam and b0["ok"]:
-        if bbconv["ok"]:
-            frac, force = (0.012 if ctx.tier == "quick" else 0.2), None
-        else:
-            force = mismatching_bconverts()
-            ctx.log(f"search bytes-convert: {None if force is None else len(force)} templates differ from the model")
-            frac = 0.1 if force is None else 0.012
-            if force and len(force) > 300:
-                force = set(sorted(force)[::len(force) // 300 + 1])
-        n, failing, bad_model = bytes_template_differential(ctx, bfam, frac, force)
-        total += n
-        for kind, is_str, n_, ko, c, e, g_, node in failing[:5]:
-            found = True
-            tstr = str(node) if kind == "legacy" else "; ".join(str(i).strip() for i in node[0]) + f" -> {node[1]}"
-            ctx.violation(
-                "failing-input", f"{kind} convert template {'String' if is_str else 'Bytes'}[{n_}] -> {c_src_name(ko)} is not exact-or-revert",
-                {"generator": ("vyper.builtins._convert.convert" if kind == "legacy" else "vyper.codegen_venom.builtins.convert.lower_convert")
-                              + f" on a memory bytestring operand, target {c_src_name(ko)}",
-                 "template": " ".join(tstr.split()), "length": c[0], "first_data_word": hex(c[1]),
-                 "expected": "revert" if e == -1 else hex(e), "observed_on_evm": "revert" if g_ == -1 else hex(g_),
-                 "how": "length / data word stored at 0x100 / 0x120, template compiled by the real back end, executed on pyrevm"},
-                key=f"{kind}-bytes-convert:{n_}->{c_src_name(ko)}")
-        for kind, is_str, n_, ko, c, l, g_ in bad_model[:5]:
-            if not found:
-                ctx.violation("correspondence-broken", f"Coq evaluator disagrees with the real back end + EVM on an exported {kind} bytes-convert template",
-                              {"convert": f"Bytes[{n_}] -> {c_src_name(ko)}", "length": c[0], "data": hex(c[1]), "coq": str(l), "evm": str(g_)})
-    if empty_bytes_signed_probe(ctx) and not ctx.is_known("convert-empty-bytes-signed-stale"):
-        found = True
-    ctx.log(f"bytes-convert differentials done {time.time()-t0:.0f}s")
-
-    # ---- conversions: template differential (+ Search), glue probes, venom-only pairs
-    for kind, templ, b in (("legacy", lconv, bcl), ("venom", vconv, bcv)):
-        if not templ or not b0["ok"]:
-            continue
-        if b["ok"]:
-            frac, force = (0.012 if ctx.tier == "quick" else 0.15), ()
-        else:
-            bad = mismatching_converts(kind)
-            ctx.log(f"search convert {kind}: {None if bad is None else len(bad)} templates differ from the model")
-            if bad is None:
-                frac, force = 0.1, ()
+    def ph_pow(ctx):
+        found, total = False, 0
+        # ---- safe_pow templates
+        for kind, templ, b in (("legacy", lpow, bpl), ("venom", vpow, bpv)):
+            if not templ or not b0["ok"]:
+                continue
+            if b["ok"]:
+                frac, force = (0.035 if ctx.tier == "quick" else 0.5), ()
             else:
-                frac, force = 0.02, bad[::max(1, len(bad) // 400)]
-        n, failing, bad_model = convert_differential(ctx, templ, kind, frac, force)
-        total += n
-        for ki, ko, v, e, g, node in failing[:5]:
-            found = True
-            tstr = str(node) if kind == "legacy" else "; ".join(str(i).strip() for i in node[0]) + f" -> {node[1]}"
-            ctx.violation(
-                "failing-input", f"{kind} convert template {c_src_name(ki)} -> {c_src_name(ko)} is not exact-or-revert",
-                {"generator": ("vyper.builtins._convert.convert" if kind == "legacy" else "vyper.codegen_venom.builtins.convert.lower_convert")
-                              + f" on a symbolic operand of type {c_src_name(ki)}, target {c_src_name(ko)}",
-                 "template": " ".join(tstr.split()), "value": str(v), "input_word": hex(c_enc(ki, v)) if isinstance(v, int) else "?",
-                 "expected": "revert" if e == -1 else hex(e),
-                 "observed_on_evm": "revert" if g == -1 else (hex(g) if g is not None else "?"),
-                 "how": "template compiled by the real back end + assembler, executed on pyrevm"},
-                key=f"{kind}-convert:{c_src_name(ki)}->{c_src_name(ko)}")
-        for ki, ko, v, l, g in bad_model[:5]:
-            if not found:
-                ctx.violation("correspondence-broken", f"Coq evaluator disagrees with the real back end + EVM on an exported {kind} convert template",
-                              {"convert": f"{c_src_name(ki)} -> {c_src_name(ko)}", "value": str(v), "coq": str(l), "evm": str(g)})
-    if lconv:
-        cterm = {}
-        for ci, co, ki, ko, _ in lconv:
-            cterm[ki] = ci
-            cterm[ko] = co
-        pairs_by_in = choose_convert_pairs(ctx, [(x[2], x[3]) for x in lconv], ctx.tier)
-        n, cfail = convert_glue(ctx, pairs_by_in, cterm, quick_glue_configs() if ctx.tier == "quick" else configs("quick"))
-        total += n
-        for f in cfail[:8]:
-            found = True
-            ctx.violation("failing-input", f"convert {f['convert']} under {f['config']} is not exact-or-revert", f,
-                          key=f"convert-glue:{f['convert']}:{f['config']}")
-        n, bfail = bytes_convert_glue(ctx, cterm, quick_glue_configs() if ctx.tier == "quick" else configs("quick"))
-        total += n
-        for f in bfail[:8]:
-            found = True
-            ctx.violation("failing-input", f"convert {f['convert']} under {f['config']} is not exact-or-revert", f,
-                          key=f"convert-glue:{f['convert']}:{f['config']}")
-    witness = venom_extra_conversions(ctx, vextra)
-    if witness:
-        found = True
-    dis = convert_acceptance_differential(ctx)
-    if vextra and not witness and not dis:
-        # the two convert lowerings disagree on which pairs they accept, but no sampled source program shows it
-        ctx.violation("correspondence-broken", "venom lower_convert accepts type pairs that _convert.convert rejects",
-                      {"count": len(vextra), "examples": sorted({f"{c_src_name(x[2])}->{c_src_name(x[3])}" for x in vextra})[:40]})
-    venom_only = [d for d in dis if d[2][1] == "compiles"]
-    if venom_only and not ctx.is_known("venom-convert-accepts:flag->bytes4"):
-        found = True
-    if venom_only:
-        # same root cause as the truncation witness above: no input-type validation in the venom convert lowering
-        ctx.violation("failing-input", "venom pipeline compiles convert() pairs that the legacy pipeline rejects",
-                      {"pairs": [f"{a} -> {b}: legacy {r[0]}, venom {r[1]}" for a, b, r, _ in venom_only[:30]],
-                       "source": venom_only[0][3], "config": "venom-gas-prague vs legacy-gas-prague",
-                       "expected": "the same accept/reject decision in both pipelines", "observed": "venom compiles it"},
-                      key="venom-convert-accepts:flag->bytes4")
-    for a, b, r, src in [d for d in dis if d[2][0] == "compiles"][:3]:
-        found = True
-        ctx.violation("failing-input", f"legacy pipeline compiles convert({a} -> {b}) but venom rejects it",
-                      {"source": src, "legacy": r[0], "venom": r[1], "expected": "the same accept/reject decision in both pipelines"},
-                      key=f"convert-accept-disagree:{a}->{b}")
-    ctx.log(f"convert differentials done {time.time()-t0:.0f}s")
+                bad = mismatching_pows(kind)
+                ctx.log(f"search pow {kind}: {None if bad is None else len(bad)} templates differ from the model / have a wrong bound")
+                frac, force = (0.3, ()) if bad is None else (0.06, bad[::max(1, len(bad) // 300)])
+            n, failing, bad_model = pow_differential(ctx, templ, kind, frac, force)
+            total += n
+            for kd, ty, lit, c, e, g, node in failing[:5]:
+                found = True
+                tstr = str(node) if kind == "legacy" else "; ".join(str(i).strip() for i in node[0]) + f" -> {node[1]}"
+                what = f"{lit} ** y" if kd == 0 else f"x ** {lit}"
+                ctx.violation(
+                    "failing-input", f"{kind} safe_pow template {what} for {tyname(ty)} is not exact-or-revert",
+                    {"generator": ("vyper.codegen.arithmetic.safe_pow" if kind == "legacy" else "vyper.codegen_venom.arithmetic.safe_pow")
+                                  + f", type {tyname(ty)}, {'literal base' if kd == 0 else 'literal exponent'} {lit}",
+                     "template": " ".join(tstr.split()), "x": str(c[0]), "y": str(c[1]),
+                     "expected": "revert" if e == -1 else hex(e),
+                     "observed_on_evm": "revert" if g == -1 else (hex(g) if g is not None else "?"),
+                     "how": "template compiled by the real back end + assembler, executed on pyrevm"},
+                    key=f"{kind}-pow:{tyname(ty)}:{'b' if kd == 0 else 'e'}{lit}")
+            for kd, ty, lit, c, l, g in bad_model[:5]:
+                if not found:
+                    ctx.violation("correspondence-broken", f"Coq evaluator disagrees with the real back end + EVM on an exported {kind} pow template",
+                                  {"type": tyname(ty), "literal": str(lit), "x": str(c[0]), "y": str(c[1]), "coq": str(l), "evm": str(g)})
+        ctx.log(f"pow differential done {time.time()-t0:.0f}s")
 
-    if ctx.tier == "quick":
-        n, gfail = glue_differential(ctx, tys, quick_glue_configs(), 9)
-    else:
-        # all 65 types under the four most different pipelines, the boundary types under the covering configuration
-        # set (with literal / pow / guard probes), and 5 of them under every configuration (base probes only)
-        n, gfail = glue_differential(ctx, tys, quick_glue_configs(), 12)
-        qt = choose_types(report_quick(ctx), all_tys)
-        n1, gfail1 = glue_differential(ctx, qt, configs("quick"), 9)
-        deep = [(32, False, False), (32, True, False), (16, True, False), (17, True, False), (21, True, True)]
-        n2, gfail2 = glue_differential(ctx, deep, configs("thorough"), 9, with_lits=False)
-        n += n1 + n2
-        gfail += gfail1 + gfail2
-    total += n
-    for f in gfail[:8]:
-        found = True
-        ctx.violation("failing-input", f"{f['type']} {f['function']} under {f['config']} is not exact-or-revert", f,
-                      key=f"glue:{f['function']}:{f['type']}:{f['config']}")
-    ctx.log(f"glue differential done {time.time()-t0:.0f}s")
+        return found, total
+
+    def ph_unchecked(ctx):
+        found, total = False, 0
+        # ---- unchecked operations (must wrap exactly)
+        for kind, templ, b in (("legacy", luns, bul), ("venom", vuns, buv)):
+            if not templ or not b0["ok"]:
+                continue
+            if b["ok"]:
+                frac, force = (0.025 if ctx.tier == "quick" else 0.6), ()
+            else:
+                bad = mismatching_unsafes(kind)
+                ctx.log(f"search unchecked {kind}: {None if bad is None else len(bad)} templates differ from the model")
+                frac, force = (0.5, ()) if bad is None else (0.08, bad[::max(1, len(bad) // 200)])
+            n, failing, bad_model = unsafe_differential(ctx, templ, kind, frac, force)
+            total += n
+            for uop, ty, c, e, g_, node in failing[:5]:
+                found = True
+                tstr = str(node) if kind == "legacy" else "; ".join(str(i).strip() for i in node[0]) + f" -> {node[1]}"
+                ctx.violation(
+                    "failing-input", f"{kind} template of {UNSAFE_SRC[uop]} for {tyname(ty)} does not wrap exactly modulo 2**bits",
+                    {"generator": f"{kind} front end, {UNSAFE_SRC[uop]} on {tyname(ty)} operands in variables x, y",
+                     "template": " ".join(tstr.split()), "x": str(c[0]), "y": str(c[1]), "expected": hex(e),
+                     "observed_on_evm": "revert" if g_ == -1 else (hex(g_) if g_ is not None else "?"),
+                     "how": "template compiled by the real back end + assembler, executed on pyrevm"},
+                    key=f"{kind}-unchecked:{uop}:{tyname(ty)}")
+            for uop, ty, c, l, g_ in bad_model[:5]:
+                if not found:
+                    ctx.violation("correspondence-broken", f"Coq evaluator disagrees with the real back end + EVM on an exported {kind} unchecked-op template",
+                                  {"op": uop, "type": tyname(ty), "x": str(c[0]), "y": str(c[1]), "coq": str(l), "evm": str(g_)})
+        n, ufail = unsafe_glue(ctx, [(32, True, False), (32, False, False), (1, True, False), (1, False, False)] if ctx.tier == "quick" else tys, quick_glue_configs() if ctx.tier == "quick" else configs("quick"))
+        total += n
+        for f in ufail[:8]:
+            found = True
+            ctx.violation("failing-input", f"{f['operation']} on {f['type']} under {f['config']} is not exact / does not wrap exactly", f,
+                          key=f"unchecked-glue:{f['operation']}:{f['type']}:{f['config']}")
+        ctx.log(f"unchecked-ops differentials done {time.time()-t0:.0f}s")
+
+        return found, total
+
+    def ph_clamps(ctx):
+        found, total = False, 0
+        # ---- clamps of all word types (three implementations) and the venom unary minus
+        if clampfam and b0["ok"]:
+            n, failing, bad_model = clamp_differential(ctx, clampfam, (0.15 if ctx.tier == "quick" else None) if bclamp["ok"] else None)
+            total += n
+            for name, ki, w, e, g_, node in failing[:5]:
+                found = True
+                tstr = str(node) if name == "legacy" else "; ".join(str(i).strip() for i in node[0]) + f" -> {node[1]}"
+                ctx.violation(
+                    "failing-input", f"{name} clamp_basetype for {c_src_name(ki)} does not accept exactly the canonical words",
+                    {"generator": {"legacy": "vyper.codegen.core.clamp_basetype", "venom_arith": "vyper.codegen_venom.arithmetic.clamp_basetype",
+                                   "venom_abi": "vyper.codegen_venom.abi.abi_decoder.clamp_basetype"}[name] + f" on type {c_src_name(ki)}",
+                     "template": " ".join(tstr.split()), "input_word": hex(w),
+                     "expected": "revert" if e == -1 else hex(e), "observed_on_evm": "revert" if g_ == -1 else hex(g_),
+                     "how": "template compiled by the real back end + assembler, executed on pyrevm"},
+                    key=f"clamp:{name}:{c_src_name(ki)}")
+            for name, ki, w, l, g_ in bad_model[:5]:
+                if not found:
+                    ctx.violation("correspondence-broken", f"Coq evaluator disagrees with the real back end + EVM on an exported {name} clamp",
+                                  {"type": c_src_name(ki), "word": hex(w), "coq": str(l), "evm": str(g_)})
+            n, failing = usub_differential(ctx, clampfam)
+            total += n
+            for ty, x, e, g_, node in failing[:5]:
+                found = True
+                ctx.violation("failing-input", f"venom unary minus template for {tyname(ty)} is not exact-or-revert",
+                              {"generator": f"vyper.codegen_venom.expr.Expr.lower_UnaryOp (USub), type {tyname(ty)}",
+                               "template": "; ".join(str(i).strip() for i in node[0]) + f" -> {node[1]}", "x": str(x),
+                               "expected": "revert" if e == -1 else hex(e), "observed_on_evm": "revert" if g_ == -1 else hex(g_)},
+                              key=f"venom-usub:{tyname(ty)}")
+        ctx.log(f"clamp differentials done {time.time()-t0:.0f}s")
+
+        return found, total
+
+    def ph_bytesconv(ctx):
+        found, total = False, 0
+        # ---- bytestring -> word conversion templates (memory operand)
+        if bfam and b0["ok"]:
+            if bbconv["ok"]:
+                frac, force = (0.012 if ctx.tier == "quick" else 0.2), None
+            else:
+                force = mismatching_bconverts()
+                ctx.log(f"search bytes-convert: {None if force is None else len(force)} templates differ from the model")
+                frac = 0.1 if force is None else 0.012
+                if force and len(force) > 300:
+                    force = set(sorted(force)[::len(force) // 300 + 1])
+            n, failing, bad_model = bytes_template_differential(ctx, bfam, frac, force)
+            total += n
+            for kind, is_str, n_, ko, c, e, g_, node in failing[:5]:
+                found = True
+                tstr = str(node) if kind == "legacy" else "; ".join(str(i).strip() for i in node[0]) + f" -> {node[1]}"
+                ctx.violation(
+                    "failing-input", f"{kind} convert template {'String' if is_str else 'Bytes'}[{n_}] -> {c_src_name(ko)} is not exact-or-revert",
+                    {"generator": ("vyper.builtins._convert.convert" if kind == "legacy" else "vyper.codegen_venom.builtins.convert.lower_convert")
+                                  + f" on a memory bytestring operand, target {c_src_name(ko)}",
+                     "template": " ".join(tstr.split()), "length": c[0], "first_data_word": hex(c[1]),
+                     "expected": "revert" if e == -1 else hex(e), "observed_on_evm": "revert" if g_ == -1 else hex(g_),
+                     "how": "length / data word stored at 0x100 / 0x120, template compiled by the real back end, executed on pyrevm"},
+                    key=f"{kind}-bytes-convert:{n_}->{c_src_name(ko)}")
+            for kind, is_str, n_, ko, c, l, g_ in bad_model[:5]:
+                if not found:
+                    ctx.violation("correspondence-broken", f"Coq evaluator disagrees with the real back end + EVM on an exported {kind} bytes-convert template",
+                                  {"convert": f"Bytes[{n_}] -> {c_src_name(ko)}", "length": c[0], "data": hex(c[1]), "coq": str(l), "evm": str(g_)})
+        if empty_bytes_signed_probe(ctx) and not ctx.is_known("convert-empty-bytes-signed-stale"):
+            found = True
+        ctx.log(f"bytes-convert differentials done {time.time()-t0:.0f}s")
+
+        return found, total
+
+    def ph_convert(ctx):
+        found, total = False, 0
+        # ---- conversions: template differential (+ Search), glue probes, venom-only pairs
+        for kind, templ, b in (("legacy", lconv, bcl), ("venom", vconv, bcv)):
+            if not templ or not b0["ok"]:
+                continue
+            if b["ok"]:
+                frac, force = (0.012 if ctx.tier == "quick" else 0.15), ()
+            else:
+                bad = mismatching_converts(kind)
+                ctx.log(f"search convert {kind}: {None if bad is None else len(bad)} templates differ from the model")
+                if bad is None:
+                    frac, force = 0.1, ()
+                else:
+                    frac, force = 0.02, bad[::max(1, len(bad) // 400)]
+            n, failing, bad_model = convert_differential(ctx, templ, kind, frac, force)
+            total += n
+            for ki, ko, v, e, g, node in failing[:5]:
+                found = True
+                tstr = str(node) if kind == "legacy" else "; ".join(str(i).strip() for i in node[0]) + f" -> {node[1]}"
+                ctx.violation(
+                    "failing-input", f"{kind} convert template {c_src_name(ki)} -> {c_src_name(ko)} is not exact-or-revert",
+                    {"generator": ("vyper.builtins._convert.convert" if kind == "legacy" else "vyper.codegen_venom.builtins.convert.lower_convert")
+                                  + f" on a symbolic operand of type {c_src_name(ki)}, target {c_src_name(ko)}",
+                     "template": " ".join(tstr.split()), "value": str(v), "input_word": hex(c_enc(ki, v)) if isinstance(v, int) else "?",
+                     "expected": "revert" if e == -1 else hex(e),
+                     "observed_on_evm": "revert" if g == -1 else (hex(g) if g is not None else "?"),
+                     "how": "template compiled by the real back end + assembler, executed on pyrevm"},
+                    key=f"{kind}-convert:{c_src_name(ki)}->{c_src_name(ko)}")
+            for ki, ko, v, l, g in bad_model[:5]:
+                if not found:
+                    ctx.violation("correspondence-broken", f"Coq evaluator disagrees with the real back end + EVM on an exported {kind} convert template",
+                                  {"convert": f"{c_src_name(ki)} -> {c_src_name(ko)}", "value": str(v), "coq": str(l), "evm": str(g)})
+        if lconv:
+            cterm = {}
+            for ci, co, ki, ko, _ in lconv:
+                cterm[ki] = ci
+                cterm[ko] = co
+            pairs_by_in = choose_convert_pairs(ctx, [(x[2], x[3]) for x in lconv], ctx.tier)
+            n, cfail = convert_glue(ctx, pairs_by_in, cterm, quick_glue_configs() if ctx.tier == "quick" else configs("quick"))
+            total += n
+            for f in cfail[:8]:
+                found = True
+                ctx.violation("failing-input", f"convert {f['convert']} under {f['config']} is not exact-or-revert", f,
+                              key=f"convert-glue:{f['convert']}:{f['config']}")
+            n, bfail = bytes_convert_glue(ctx, cterm, quick_glue_configs() if ctx.tier == "quick" else configs("quick"))
+            total += n
+            for f in bfail[:8]:
+                found = True
+                ctx.violation("failing-input", f"convert {f['convert']} under {f['config']} is not exact-or-revert", f,
+                              key=f"convert-glue:{f['convert']}:{f['config']}")
+        witness = venom_extra_conversions(ctx, vextra)
+        if witness:
+            found = True
+        dis = convert_acceptance_differential(ctx)
+        if vextra and not witness and not dis:
+            # the two convert lowerings disagree on which pairs they accept, but no sampled source program shows it
+            ctx.violation("correspondence-broken", "venom lower_convert accepts type pairs that _convert.convert rejects",
+                          {"count": len(vextra), "examples": sorted({f"{c_src_name(x[2])}->{c_src_name(x[3])}" for x in vextra})[:40]})
+        venom_only = [d for d in dis if d[2][1] == "compiles"]
+        if venom_only and not ctx.is_known("venom-convert-accepts:flag->bytes4"):
+            found = True
+        if venom_only:
+            # same root cause as the truncation witness above: no input-type validation in the venom convert lowering
+            ctx.violation("failing-input", "venom pipeline compiles convert() pairs that the legacy pipeline rejects",
+                          {"pairs": [f"{a} -> {b}: legacy {r[0]}, venom {r[1]}" for a, b, r, _ in venom_only[:30]],
+                           "source": venom_only[0][3], "config": "venom-gas-prague vs legacy-gas-prague",
+                           "expected": "the same accept/reject decision in both pipelines", "observed": "venom compiles it"},
+                          key="venom-convert-accepts:flag->bytes4")
+        for a, b, r, src in [d for d in dis if d[2][0] == "compiles"][:3]:
+            found = True
+            ctx.violation("failing-input", f"legacy pipeline compiles convert({a} -> {b}) but venom rejects it",
+                          {"source": src, "legacy": r[0], "venom": r[1], "expected": "the same accept/reject decision in both pipelines"},
+                          key=f"convert-accept-disagree:{a}->{b}")
+        ctx.log(f"convert differentials done {time.time()-t0:.0f}s")
+
+        return found, total
+
+    def ph_glue(ctx):
+        found, total = False, 0
+        if ctx.tier == "quick":
+            n, gfail = glue_differential(ctx, tys, quick_glue_configs(), 9)
+        else:
+            # all 65 types under the four most different pipelines, the boundary types under the covering configuration
+            # set (with literal / pow / guard probes), and 5 of them under every configuration (base probes only)
+            n, gfail = glue_differential(ctx, tys, quick_glue_configs(), 12)
+            qt = choose_types(report_quick(ctx), all_tys)
+            n1, gfail1 = glue_differential(ctx, qt, configs("quick"), 9)
+            deep = [(32, False, False), (32, True, False), (16, True, False), (17, True, False), (21, True, True)]
+            n2, gfail2 = glue_differential(ctx, deep, configs("thorough"), 9, with_lits=False)
+            n += n1 + n2
+            gfail += gfail1 + gfail2
+        total += n
+        for f in gfail[:8]:
+            found = True
+            ctx.violation("failing-input", f"{f['type']} {f['function']} under {f['config']} is not exact-or-revert", f,
+                          key=f"glue:{f['function']}:{f['type']}:{f['config']}")
+        ctx.log(f"glue differential done {time.time()-t0:.0f}s")
+
+        return found, total
+
+    # independent phases, run in forked children (longest first); their violations and counters are replayed in the
+    # order below, so the report does not depend on scheduling
+    phases = [("templates", ph_templates), ("pow", ph_pow), ("unchecked", ph_unchecked), ("clamps", ph_clamps),
+              ("bytesconv", ph_bytesconv), ("convert", ph_convert), ("glue", ph_glue)]
+    rets = run_phases(ctx, phases, order=("glue", "bytesconv", "convert", "unchecked", "pow", "templates", "clamps"))
+    found = any(r[0] for r in rets)
+    total = sum(r[1] for r in rets)
+    ctx.log(f"differentials done {time.time()-t0:.0f}s")
 
     # ---- verdicts for broken proofs / ties
     if gen_err and not found:
